@@ -4,6 +4,7 @@ Differential execution: the classification block of the *current* spending_repor
 (node:vm) on the same (amount, tags) inputs as tally.classification's Python functions.
 """
 import itertools
+from datetime import datetime
 import json
 import os
 import re
@@ -31,7 +32,10 @@ JS_DRIVER = r"""
 const vm = require('node:vm'); const fs = require('node:fs');
 const block = fs.readFileSync(process.argv[2], 'utf8');
 const inp = JSON.parse(fs.readFileSync(process.argv[3], 'utf8'));
-const ctx = vm.createContext({});
+const stub = () => { const app = {component() { return app; }, use() { return app; }, mount() { return app; }, directive() { return app; }, config: {globalProperties: {}}}; return app; };
+const Vue = new Proxy({}, {get: (t, k) => k === 'createApp' ? stub : (k === 'defineComponent' ? (x => x) : ((...a) => a[0]))});
+// (argv[4] === 'whole': `block` is the ENTIRE script the page loads, evaluated the way a browser does - one script, later declarations included)
+const ctx = vm.createContext(process.argv[4] === 'whole' ? {Vue, window: {}, document: {}, console} : {});
 vm.runInContext(block + `
 ;globalThis.__api = {categorizeAmount, isExcludedFromSpending, calculateCashFlow,
   isIncome: (typeof isIncome === 'function') ? isIncome : null,
@@ -162,14 +166,14 @@ def classify_key(a, tl, js, py):
     return 'bucket-value-differs'
 
 
-def judge_pairs(rec, pairs, flows, py_pairs=None, label='', py_excluded=None):
+def judge_pairs(rec, pairs, flows, py_pairs=None, label='', py_excluded=None, whole=False):
     tally = core.import_tally()
     from tally import classification as cl
     node = shutil.which('node') or shutil.which('nodejs')
     if not node:
         raise core.Inconclusive('node is not installed')
     js_path = os.path.join(os.path.dirname(tally.__file__), 'spending_report.js')
-    block = extract_block(open(js_path, encoding='utf-8').read())
+    block = open(js_path, encoding='utf-8').read() if whole else extract_block(open(js_path, encoding='utf-8').read())
     if not block:
         raise core.Inconclusive('classification block not found in spending_report.js')
     tmp = tempfile.mkdtemp(prefix='vt-c13-')
@@ -182,7 +186,11 @@ def judge_pairs(rec, pairs, flows, py_pairs=None, label='', py_excluded=None):
             json.dump({'pairs': [{'a': a, 't': (None if tl == 'MISSING' else tl), 'missing': tl == 'MISSING'}
                                  for a, tl in pairs], 'flows': flows}, f)
         p = subprocess.run([node, os.path.join(tmp, 'driver.js'), os.path.join(tmp, 'block.js'),
-                            os.path.join(tmp, 'in.json')], capture_output=True, text=True, timeout=600)
+                            os.path.join(tmp, 'in.json')] + (['whole'] if whole else []), capture_output=True, text=True, timeout=600)
+        if p.returncode != 0 and whole:
+            rec.count('whole_script_not_evaluable_under_the_stub')
+            rec.unsure('the whole spending_report.js could not be evaluated under the Vue stub: ' + p.stderr.strip()[-200:])
+            return
         if p.returncode != 0:
             raise core.Inconclusive('node failed on the extracted block: ' + p.stderr.strip()[-300:])
         out = json.loads(p.stdout)
@@ -207,7 +215,7 @@ def judge_pairs(rec, pairs, flows, py_pairs=None, label='', py_excluded=None):
         if not same:
             rec.violation(classify_key(a, tl, js, py) + label,
                           f'amount={a!r} tags={tl!r}{(" (analysis holds " + repr(py_pairs[idx][1]) + ")") if py_pairs is not None else ""}: JS {js} != Python {py}',
-                          {'kind': 'pair' if py_pairs is None else 'report-level', 'a': a, 't': tl, 'before': [list(x) for x in pairs[max(0, idx - 3):idx]]})
+                          {'kind': 'pair' if py_pairs is None else 'report-level', 'a': a, 't': tl, 'before': [list(x) for x in pairs[max(0, idx - 3):idx]], 'whole': whole})
     for f3, jv in zip(flows, out['flows']):
         rec.case()
         rec.count('cashflow_triples')
@@ -234,6 +242,14 @@ def report_level(rec, rnd, n):
     try:
         for k in range(n):
             txns, _ = c12.gen_txns(rnd)
+            if rnd.random() < .3:
+                # a category whose merchants cancel exactly (a flight and the insurance pay-out for it): its transactions are classified one by one all the same
+                a_ = rnd.choice([300.0, 45.5, 1200.0])
+                for nm, sign in (('Fly Away Air', 1), ('Trip Insurance Co', -1)):
+                    txns.append({'amount': sign * a_, 'tags': [], 'merchant': nm, 'category': 'Travel', 'subcategory': rnd.choice(['Flights', 'Cover']),
+                                 'date': datetime(2025, rnd.randint(1, 12), rnd.randint(1, 28)), 'description': nm, 'raw_description': nm.upper() + ' 1',
+                                 'source': 'Amex', 'location': None})
+                rec.count('reports_with_a_category_that_nets_to_zero')
             stats = A.analyze_transactions(copy.deepcopy(txns))
             listed = {name for name, _d in A.classify_by_sections(stats['by_merchant'], everything, num_months=stats.get('num_months', 12)).get('Everything', [])}
             path = os.path.join(tmp, 'r%d.html' % k)
@@ -243,6 +259,12 @@ def report_level(rec, rnd, n):
             if err:
                 continue
             rec.count('reports_decoded')
+            n_page = sum(len(m['transactions']) for cat in data['categoryView'].values() for sub in cat['subcategories'].values() for m in sub['merchants'].values())
+            n_cli = sum(len(d.get('transactions') or []) for d in stats['by_merchant'].values())
+            rec.count('page_vs_analysis_transaction_counts')
+            if n_page != n_cli:
+                rec.violation('transactions-missing-from-what-the-page-classifies', f'the analysis classified {n_cli} transactions, the data the page recomputes its totals from '
+                              f'holds {n_page}', {'kind': 'report-level'})
             for cat in data['categoryView'].values():
                 for sub in cat['subcategories'].values():
                     for m in sub['merchants'].values():
@@ -276,6 +298,10 @@ def run(rec, shard, nshards, t):
         flows.append([round(rnd.uniform(0, 1e5), 2), round(rnd.uniform(0, 1e5), 2), round(rnd.uniform(0, 1e4), 2)])
     flows += [[0.0, 0.0, 0.0], [0.1, 0.2, 0.3], [1e12, 0.01, 1e-9], [5.0, 10.0, 0.0]]
     judge_pairs(rec, pairs, flows)
+    # the same pairs through the script AS THE PAGE LOADS IT (whole file, one script: a later declaration of the same name replaces an earlier one)
+    wp = pairs if shard == 0 else pairs[:4000]
+    judge_pairs(rec, wp, flows[:200], label=':whole-script', whole=True)
+    rec.count('whole_script_pairs', len(wp))
     report_level(rec, rnd, 60 if t == 'quick' else 1500)
     for p in pairs[:3] + pairs[len(pairs) // 2: len(pairs) // 2 + 2]:
         rec.sample({'amount': p[0], 'tags': p[1]})
@@ -287,4 +313,4 @@ def replay(rec, case):
     elif case.get('kind') == 'flow':
         judge_pairs(rec, [], [case['f']])
     else:
-        judge_pairs(rec, [tuple(x) for x in case.get('before', [])] + [(case['a'], case['t'])], [])
+        judge_pairs(rec, [tuple(x) for x in case.get('before', [])] + [(case['a'], case['t'])], [], whole=bool(case.get('whole')), label=':whole-script' if case.get('whole') else '')
